@@ -887,6 +887,38 @@ func checkTokenIndex(w *World, r *Report) {
 	an.eofVal = eof.Val()
 
 	// kind predicates whose truth excludes TOKEN_EOF: func(int) bool { return x == K1 || x == K2 … }
+	// … in whatever form they are written (switch, if-chain, table-free helper calls): the
+	// predicate's SSA is evaluated for the argument TOKEN_EOF; it must answer false
+	if eofInt, isInt := constant.Int64Val(an.eofVal); isInt {
+		for fn, fd := range w.decls {
+			if fd.Body == nil || fd.Recv != nil {
+				continue
+			}
+			sig := fn.Type().(*types.Signature)
+			if sig.Params().Len() != 1 || sig.Results().Len() != 1 || !types.Identical(sig.Results().At(0).Type(), types.Typ[types.Bool]) {
+				continue
+			}
+			if b, ok := sig.Params().At(0).Type().Underlying().(*types.Basic); !ok || b.Info()&types.IsInteger == 0 {
+				continue
+			}
+			g := w.ssaFunc(fn)
+			if g == nil || len(g.Blocks) == 0 {
+				continue
+			}
+			if v, ok := interpretKindPredicate(g, eofInt); ok && !v {
+				// and it is a predicate over kinds: true for at least one kind constant
+				some := false
+				for k := int64(0); k < 64 && !some; k++ {
+					if v2, ok2 := interpretKindPredicate(g, k); ok2 && v2 {
+						some = true
+					}
+				}
+				if some {
+					an.nonEOFPred[fn] = true
+				}
+			}
+		}
+	}
 	for fn, fd := range w.decls {
 		if fd.Body == nil || len(fd.Body.List) != 1 || fd.Recv != nil {
 			continue
